@@ -326,6 +326,39 @@ theorem history_value_in_dump (algos : List String) (s0 s : PState) (ops : List 
       · rename_i q hq; exact ih q hr
       · cases hr
 
+/-- **The name of the file is an input of the round trip.**  Under any name that `read_file`
+accepts (several dots, device-like names such as `aux.toml` on a system that is not Windows, other
+case, spaces, unicode, leading dot or dash, up to 255 characters) what was dumped reads back. -/
+theorem named_roundtrip (algos : List String) (ps : List Entry) (w : Entry → Val) (base : String)
+    (hname : validFileName base = true) (hnd : (ps.map (·.key)).Nodup)
+    (hv : ∀ e ∈ ps, typeOK e.type e.value = true ∧ admitted algos e e.value = true) :
+    ∃ d, dumpNamed ps base = .ok d ∧
+      readNamed algos (ps.map fun e => { e with value := w e }) base d = .ok ps := by
+  refine ⟨_, rfl, ?_⟩
+  simp only [readNamed, hname, if_true]
+  exact file_roundtrip algos ps w hnd hv
+
+/-- As coded, `dump_file` writes under names that `read_file` refuses to read (`a:b.toml`, `q?.toml`):
+the reader then silently keeps its own values (known finding FC14-7) … -/
+theorem refused_name_keeps_reader_values (algos : List String) (ps qs : List Entry) (base : String)
+    (hname : validFileName base = false) :
+    ∃ d, dumpNamed ps base = .ok d ∧ readNamed algos qs base d = .ok qs := by
+  refine ⟨_, rfl, ?_⟩
+  simp [readNamed, hname]
+
+/-- … the repaired `dump_file` refuses exactly those names: whatever it writes reads back. -/
+theorem named_roundtrip_repaired (algos : List String) (ps : List Entry) (w : Entry → Val) (base : String) (d : Doc)
+    (hd : dumpNamedFixed ps base = .ok d) (hnd : (ps.map (·.key)).Nodup)
+    (hv : ∀ e ∈ ps, typeOK e.type e.value = true ∧ admitted algos e e.value = true) :
+    readNamed algos (ps.map fun e => { e with value := w e }) base d = .ok ps := by
+  unfold dumpNamedFixed at hd
+  split at hd
+  · rename_i hname
+    injection hd with hd; subst hd
+    simp only [readNamed, hname, if_true]
+    exact file_roundtrip algos ps w hnd hv
+  · cases hd
+
 /-! ## reports and pickle -/
 
 open Reports
@@ -604,5 +637,8 @@ example :
     (runP [] ⟨ps, none⟩ [.read [("A", [("x", .s "yes")]), ("Unknown", [("z", .i 1)])], .set none "y" (.i 7),
         .add ⟨"U", "y", .int, .i 9, ["is_integer"]⟩, .dump, .set (some "B") "y" (.i 8), .dump]).map dumpDoc
       = some [("A", [("x", .s "True")]), ("B", [("y", .i 8)]), ("U", [("y", .i 9)])] := by decide
+
+example : validFileName "aux.toml" = true ∧ validFileName "Aux.v2.toml" = true ∧ validFileName ".hidden.toml" = true ∧
+    validFileName "a:b.toml" = false ∧ validFileName "" = false ∧ validFileName "q?.toml" = false := by decide
 
 end C14
